@@ -1,10 +1,43 @@
 import VotelibDriver.C09
 import VotelibDriver.C01
+import VotelibDriver.C02
+import VotelibDriver.C16
+import VotelibDriver.C13
+import VotelibModel.ScaleFamilies
 open Lean
 namespace VL.Drv.C11
-/-- C11 re-uses the model handlers of the families it scales -/
+open VL VL.Convert
+
+/-- a selection together with the numbers it was read off (the harness canonicalises the order inside runs of
+    equally valued winners, which in Python depends on set iteration order) -/
+def withKeys (sel : List Slot) (keys : Votes) : Json :=
+  Json.mkObj [("sel", slotsJson sel), ("keys", votesJson keys)]
+
+/-- the composite families of harness/families.py (`VotelibModel.ScaleFamilies`) -/
+def handleOwn (op : String) (j : Json) : Option (Except String Json) :=
+  match op with
+  | "c11_positional" => some do
+    let sc ← C13.pScorer (← j.getObjVal? "scorer")
+    let p ← C13.pDict C13.pBallot (← j.getObjVal? "votes")
+    let n ← j.getObjValAs? Nat "n"
+    match rankedToPositional sc p, C11F.positionalRule sc p n with
+    | .ok keys, .ok sel => pure (withKeys sel keys)
+    | _, .error e => pure (errJson e)
+    | .error e, _ => pure (errJson e)
+  | "c11_approval" => some do
+    let split ← j.getObjValAs? Bool "split"
+    let p ← C13.pDict C13.pApproval (← j.getObjVal? "votes")
+    let n ← j.getObjValAs? Nat "n"
+    match approvalToSimple split p, C11F.approvalRule split p n with
+    | .ok keys, .ok sel => pure (withKeys sel keys)
+    | _, .error e => pure (errJson e)
+    | .error e, _ => pure (errJson e)
+  | _ => none
+
+/-- C11 re-uses the model handlers of the families it scales (first handler that knows the op answers) -/
+def handlers : List (String → Json → Option (Except String Json)) :=
+  [handleOwn, C09.handle, C01.handle, C02.handle, C16.handle]
+
 def handle (op : String) (j : Json) : Option (Except String Json) :=
-  match C09.handle op j with
-  | some r => some r
-  | none => C01.handle op j
+  handlers.findSome? (fun h => h op j)
 end VL.Drv.C11
